@@ -103,3 +103,9 @@ claim('C14', 'exact rational algebra on the plane-normal table (26 zero/sign pat
       'the cut-axis refusals for each in-plane vector separately, termination shifts exactly midway between consecutive atomic planes (one per plane, along the cut only), surface() ordering supersize -> shift -> wrap -> non-periodic across the cut, vacuum geometry, minwidth/even; '
       'fault-position setters mutually inverse incl. the box origin with one strict mask, fault() on a copy moving exactly the atoms above by a1·a1 + a2·a2 + out·n then wrapping, out-of-plane shift vectors refused by both setters. '
       'That the rotated cell contains the same crystal (System.rotate, C04) and concrete cell geometry are not decided.', 'DESIGN.md §6 C14')
+
+claim('C13', 'evaluation of the orientation table, slip-plane shifts, boundary regions and linear field on symbolic / model inputs; recording-stub evaluation of the monopole and periodic-array generators (operation sequence, arguments, which atoms are touched); refusal guards',
+      'Decides structural necessary conditions: the six cell-orientation arms are right-handed arrangements with the line and normal vectors in the named rows; slip-plane shifts exactly midway between atomic planes; monopole = supersize (symmetric, even) -> shift -> wrap -> copy -> '
+      'add displacement at (reference position - centre) -> periodic along the line only -> wrap, both systems stored atom for atom, boundary atoms = shape.outside re-typed by +natypes; box/array/cylinder boundary geometry (radius = smallest face distance - width on model cross-sections); '
+      'array: b/2 tilt by the sign of b·m, refusals (atoms on the slip plane, non-integer count, found != expected either way), old_id and trimmed reference, linear field odd in n; disregistry through the final box. '
+      'The disregistry integral, overlaps in a concrete crystal and the returned rotation are not decided.', 'DESIGN.md §6 C13')
